@@ -41,6 +41,9 @@ pub fn run(k: &str, a: &Value) -> Option<Value> {
             }
             out
         }
+        #[cfg(not(feature = "hooks"))]
+        "cast_ray" => json!({"hooks_unavailable": true}),
+        #[cfg(feature = "hooks")]
         "cast_ray" => {
             use parry2d_f64::bounding_volume::{Aabb, SimdAabb};
             use parry2d_f64::query::SimdRay;
